@@ -49,25 +49,25 @@ def map (f : α → β) : NOM α → NOM β
   | .one x => .one (f x)
   | .many l => .many (l.map f)
 
-/-- `impl FromIterator<T>` (none_one_or_many.rs:169-178): collect, then 0 ⇒ None, 1 ⇒ One
+/-- `impl FromIterator<T>` (none_one_or_many.rs:163-172): collect, then 0 ⇒ None, 1 ⇒ One
 (`swap_remove(0)` of a one-element vector is that element), otherwise Many. -/
 def fromIter : List α → NOM α
   | [] => .none
   | [x] => .one x
   | l => .many l
 
-/-- `impl From<Vec<T>>` (none_one_or_many.rs:157-166): same three arms (`into_iter().next()`). -/
+/-- `impl From<Vec<T>>` (none_one_or_many.rs:152-160): same three arms (`into_iter().next()`). -/
 def fromVec : List α → NOM α
   | [] => .none
   | [x] => .one x
   | l => .many l
 
-/-- `impl From<Option<T>>` (none_one_or_many.rs:147-154). -/
+/-- `impl From<Option<T>>` (none_one_or_many.rs:142-149). -/
 def fromOption : Option α → NOM α
   | .none => .none
   | .some x => .one x
 
-/-- `NoneOneOrMany::extend` (none_one_or_many.rs:30-55). NB the arm `(One(left), Many(mut right))`
+/-- `NoneOneOrMany::extend` (none_one_or_many.rs:30-54). NB the arm `(One(left), Many(mut right))`
 pushes `left` *behind* `right`. -/
 def extend (self : NOM α) (other : List α) : NOM α :=
   match self, fromIter other with
@@ -79,67 +79,67 @@ def extend (self : NOM α) (other : List α) : NOM α :=
   | .many left, .one right => .many (left ++ [right])
   | .many left, .many right => .many (left ++ right)
 
-/-- `NoneOneOrMany::contains` (none_one_or_many.rs:57-66). -/
+/-- `NoneOneOrMany::contains` (none_one_or_many.rs:56-65). -/
 def contains [BEq α] (self : NOM α) (item : α) : Bool :=
   match self with
   | .none => false
   | .one v => v == item
   | .many vs => vs.contains item
 
-/-- `NoneOneOrMany::len` (none_one_or_many.rs:68-74). -/
+/-- `NoneOneOrMany::len` (none_one_or_many.rs:67-73). -/
 def len : NOM α → Nat
   | .none => 0
   | .one _ => 1
   | .many l => l.length
 
-/-- `NoneOneOrMany::is_none` (none_one_or_many.rs:80-82). -/
+/-- `NoneOneOrMany::is_none` (none_one_or_many.rs:79-81). -/
 def isNone : NOM α → Bool
   | .none => true
   | _ => false
 
-/-- `NoneOneOrMany::is_empty` (none_one_or_many.rs:76-78): `self.is_none()`. -/
+/-- `NoneOneOrMany::is_empty` (none_one_or_many.rs:75-77): `self.is_none()`. -/
 def isEmpty (self : NOM α) : Bool := self.isNone
 
-/-- `NoneOneOrMany::is_one` (none_one_or_many.rs:84-86). -/
+/-- `NoneOneOrMany::is_one` (none_one_or_many.rs:83-85). -/
 def isOne : NOM α → Bool
   | .one _ => true
   | _ => false
 
-/-- `NoneOneOrMany::is_many` (none_one_or_many.rs:88-90). -/
+/-- `NoneOneOrMany::is_many` (none_one_or_many.rs:87-89). -/
 def isMany : NOM α → Bool
   | .many _ => true
   | _ => false
 
-/-- `NoneOneOrMany::into_option` (none_one_or_many.rs:92-98). -/
+/-- `NoneOneOrMany::into_option` (none_one_or_many.rs:91-97). -/
 def intoOption : NOM α → Option (OOM α)
   | .none => .none
   | .one x => some (.one x)
   | .many l => some (.many l)
 
-/-- `NoneOneOrMany::into_vec` (none_one_or_many.rs:100-106). -/
+/-- `NoneOneOrMany::into_vec` (none_one_or_many.rs:99-105). -/
 def intoVec : NOM α → List α
   | .none => []
   | .one x => [x]
   | .many l => l
 
-/-- `impl AsRef<[T]>` / `Borrow<[T]>` (none_one_or_many.rs:114-130). -/
+/-- `impl AsRef<[T]>` / `Borrow<[T]>` (none_one_or_many.rs:113-128). -/
 def asRef : NOM α → List α
   | .none => []
   | .one x => [x]
   | .many l => l
 
-/-- `NoneOneOrMany::iter` and `impl IntoIterator for &NoneOneOrMany` (none_one_or_many.rs:108-110,
-196-203): `self.as_ref().iter()`. -/
+/-- `NoneOneOrMany::iter` and `impl IntoIterator for &NoneOneOrMany` (none_one_or_many.rs:107-109,
+189-196): `self.as_ref().iter()`. -/
 def iter (self : NOM α) : List α := self.asRef
 
-/-- `impl IntoIterator for NoneOneOrMany` (none_one_or_many.rs:181-193): empty / once / vec iterator. -/
+/-- `impl IntoIterator for NoneOneOrMany` (none_one_or_many.rs:175-186): empty / once / vec iterator. -/
 def intoIter : NOM α → List α
   | .none => []
   | .one x => [x]
   | .many l => l
 
 /-- `impl BorrowMut<[T]>` and `impl IntoIterator for &mut NoneOneOrMany`
-(none_one_or_many.rs:133-143, 205-220) used to update every element in place: the variant is kept. -/
+(none_one_or_many.rs:131-139, 198-213) used to update every element in place: the variant is kept. -/
 def mutAll (f : α → α) : NOM α → NOM α
   | .none => .none
   | .one x => .one (f x)
@@ -182,25 +182,25 @@ def map (f : α → β) : OOM α → OOM β
   | .one x => .one (f x)
   | .many l => .many (l.map f)
 
-/-- `impl FromIterator<T>` (one_or_many.rs:158-166): exactly one item ⇒ One, *anything else* ⇒ Many
+/-- `impl FromIterator<T>` (one_or_many.rs:151-159): exactly one item ⇒ One, *anything else* ⇒ Many
 (an empty iterator gives `Many(vec![])`). -/
 def fromIter : List α → OOM α
   | [x] => .one x
   | l => .many l
 
-/-- `impl From<Vec<T>>` (one_or_many.rs:135-143): panics on the empty vector (`none` here). -/
+/-- `impl From<Vec<T>>` (one_or_many.rs:130-138): panics on the empty vector (`none` here). -/
 def fromVec : List α → Option (OOM α)
   | [] => none
   | [x] => some (.one x)
   | l => some (.many l)
 
-/-- `impl From<T>` (one_or_many.rs:129-133). -/
+/-- `impl From<T>` (one_or_many.rs:124-128). -/
 def fromItem (x : α) : OOM α := .one x
 
-/-- `impl Default` (one_or_many.rs:89-93). -/
+/-- `impl Default` (one_or_many.rs:90-94). -/
 def default [Inhabited α] : OOM α := .one Inhabited.default
 
-/-- `OneOrMany::extend` (one_or_many.rs:27-50). Same arms as `NoneOneOrMany::extend` without the
+/-- `OneOrMany::extend` (one_or_many.rs:27-49). Same arms as `NoneOneOrMany::extend` without the
 `None` ones, so extending by an empty iterator goes through `Many(vec![])`. -/
 def extend (self : OOM α) (other : List α) : OOM α :=
   match self, fromIter other with
@@ -209,46 +209,46 @@ def extend (self : OOM α) (other : List α) : OOM α :=
   | .many left, .one right => .many (left ++ [right])
   | .many left, .many right => .many (left ++ right)
 
-/-- `OneOrMany::contains` (one_or_many.rs:52-60). -/
+/-- `OneOrMany::contains` (one_or_many.rs:51-59). -/
 def contains [BEq α] (self : OOM α) (item : α) : Bool :=
   match self with
   | .one v => v == item
   | .many vs => vs.contains item
 
-/-- `OneOrMany::len` (one_or_many.rs:62-68). -/
+/-- `OneOrMany::len` (one_or_many.rs:61-67). -/
 def len : OOM α → Nat
   | .one _ => 1
   | .many l => l.length
 
-/-- `OneOrMany::is_one` (one_or_many.rs:70-72). -/
+/-- `OneOrMany::is_one` (one_or_many.rs:69-71). -/
 def isOne : OOM α → Bool
   | .one _ => true
   | _ => false
 
-/-- `OneOrMany::is_many` (one_or_many.rs:74-76). -/
+/-- `OneOrMany::is_many` (one_or_many.rs:73-75). -/
 def isMany : OOM α → Bool
   | .many _ => true
   | _ => false
 
-/-- `OneOrMany::into_vec` (one_or_many.rs:78-83). -/
+/-- `OneOrMany::into_vec` (one_or_many.rs:77-82). -/
 def intoVec : OOM α → List α
   | .one x => [x]
   | .many l => l
 
-/-- `impl AsRef<[T]>` / `Borrow<[T]>` (one_or_many.rs:96-110). -/
+/-- `impl AsRef<[T]>` / `Borrow<[T]>` (one_or_many.rs:97-111). -/
 def asRef : OOM α → List α
   | .one x => [x]
   | .many l => l
 
-/-- `OneOrMany::iter` (one_or_many.rs:85-87). -/
+/-- `OneOrMany::iter` (one_or_many.rs:84-86). -/
 def iter (self : OOM α) : List α := self.asRef
 
-/-- `impl IntoIterator for OneOrMany` and `for &OneOrMany` (one_or_many.rs:169-192). -/
+/-- `impl IntoIterator for OneOrMany` and `for &OneOrMany` (one_or_many.rs:162-185). -/
 def intoIter : OOM α → List α
   | .one x => [x]
   | .many l => l
 
-/-- `impl BorrowMut<[T]>`, `impl IntoIterator for &mut OneOrMany` (one_or_many.rs:113-121, 195-206). -/
+/-- `impl BorrowMut<[T]>`, `impl IntoIterator for &mut OneOrMany` (one_or_many.rs:114-121, 188-199). -/
 def mutAll (f : α → α) : OOM α → OOM α
   | .one x => .one (f x)
   | .many l => .many (l.map f)
@@ -267,7 +267,7 @@ def eq [DecidableEq α] (a b : OOM α) : Bool := decide (a = b)
 
 end OOM
 
-/-- `impl From<NoneOneOrMany<T>> for Option<OneOrMany<T>>` (one_or_many.rs:145-153). -/
+/-- `impl From<NoneOneOrMany<T>> for Option<OneOrMany<T>>` (one_or_many.rs:140-148). -/
 def optionOfNOM {α : Type} : NOM α → Option (OOM α)
   | .none => none
   | .one v => some (.one v)
@@ -289,7 +289,7 @@ def OOM.toJson : OOM Int → String
 
 /-! ## Part 1c — audit records (barter/src/engine/audit/mod.rs) -/
 
-/-- `ProcessAudit<Event, Output>` (audit/mod.rs:166-175); `κ` is `UnrecoverableEngineError`. -/
+/-- `ProcessAudit<Event, Output>` (audit/mod.rs:159-168); `κ` is `UnrecoverableEngineError`. -/
 structure ProcessAudit (ε ω κ : Type) where
   event : ε
   outputs : NOM ω
@@ -299,13 +299,13 @@ structure ProcessAudit (ε ω κ : Type) where
 namespace ProcessAudit
 variable {ε ω κ : Type}
 
-/-- `ProcessAudit::with_event` (audit/mod.rs:187-196). -/
+/-- `ProcessAudit::with_event` (audit/mod.rs:180-189). -/
 def withEvent (e : ε) : ProcessAudit ε ω κ := ⟨e, .none, .none⟩
 
-/-- `ProcessAudit::with_output` (audit/mod.rs:198-208). -/
+/-- `ProcessAudit::with_output` (audit/mod.rs:191-201). -/
 def withOutput (e : ε) (o : ω) : ProcessAudit ε ω κ := ⟨e, .one o, .none⟩
 
-/-- `ProcessAudit::with_trading_state_update` (audit/mod.rs:214-228): `wrap` is
+/-- `ProcessAudit::with_trading_state_update` (audit/mod.rs:207-220): `wrap` is
 `EngineOutput::OnTradingDisabled`. -/
 def withTradingStateUpdate {δ : Type} (wrap : δ → ω) (e : ε) (disabled : Option δ) : ProcessAudit ε ω κ :=
   match disabled with
@@ -323,27 +323,27 @@ inductive MarketOut (δ : Type) where
   | none
   | onDisconnect (d : δ)
 
-/-- `ProcessAudit::with_account_update` (audit/mod.rs:230-241). -/
+/-- `ProcessAudit::with_account_update` (audit/mod.rs:222-233). -/
 def withAccountUpdate {δ π : Type} (wrapD : δ → ω) (wrapP : π → ω) (e : ε) :
     AccountOut δ π → ProcessAudit ε ω κ
   | .none => withEvent e
   | .onDisconnect d => withOutput e (wrapD d)
   | .positionExit p => withOutput e (wrapP p)
 
-/-- `ProcessAudit::with_market_update` (audit/mod.rs:243-253). -/
+/-- `ProcessAudit::with_market_update` (audit/mod.rs:235-245). -/
 def withMarketUpdate {δ : Type} (wrapD : δ → ω) (e : ε) : MarketOut δ → ProcessAudit ε ω κ
   | .none => withEvent e
   | .onDisconnect d => withOutput e (wrapD d)
 
-/-- `ProcessAudit::add_output` (audit/mod.rs:257-273): `outputs.extend(NoneOneOrMany::One(output))`. -/
+/-- `ProcessAudit::add_output` (audit/mod.rs:249-264): `outputs.extend(NoneOneOrMany::One(output))`. -/
 def addOutput (self : ProcessAudit ε ω κ) (o : ω) : ProcessAudit ε ω κ :=
   { self with outputs := self.outputs.extend (NOM.one o).intoIter }
 
-/-- `ProcessAudit::add_errors` (audit/mod.rs:275-291): `errors.extend(errs)`. -/
+/-- `ProcessAudit::add_errors` (audit/mod.rs:266-281): `errors.extend(errs)`. -/
 def addErrors (self : ProcessAudit ε ω κ) (errs : List κ) : ProcessAudit ε ω κ :=
   { self with errors := self.errors.extend errs }
 
-/-- `impl Terminal for ProcessAudit` (audit/mod.rs:177-184). -/
+/-- `impl Terminal for ProcessAudit` (audit/mod.rs:170-177). -/
 def isTerminal (evTerminal : ε → Bool) (self : ProcessAudit ε ω κ) : Bool :=
   evTerminal self.event || !self.errors.isEmpty
 
@@ -387,7 +387,7 @@ inductive EngineError (ρ' κ : Type) where
   | unrecoverable (k : κ)
   deriving DecidableEq, Repr
 
-/-- `SendRequestsOutput<Kind>` (send_requests.rs:160-163); `ρ` is the request type. -/
+/-- `SendRequestsOutput<Kind>` (send_requests.rs:157-163); `ρ` is the request type. -/
 structure SendRequestsOutput (ρ ρ' κ : Type) where
   sent : NOM ρ
   errors : NOM (ρ × EngineError ρ' κ)
@@ -396,11 +396,26 @@ structure SendRequestsOutput (ρ ρ' κ : Type) where
 namespace SendRequestsOutput
 variable {ρ ρ' κ : Type}
 
-/-- the tail of `send_requests` (send_requests.rs:62-72): `partition_result` of the per-request
+/-- `Ok(request)` side of `partition_result` -/
+def sentOf : ρ × Option (EngineError ρ' κ) → Option ρ
+  | (r, none) => some r
+  | (_, some _) => none
+
+/-- `Err((request, error))` side of `partition_result` -/
+def errorOf : ρ × Option (EngineError ρ' κ) → Option (ρ × EngineError ρ' κ)
+  | (_, none) => none
+  | (r, some e) => some (r, e)
+
+/-- the closure of `unrecoverable_errors` (send_requests.rs:175-178) -/
+def unrecOf : ρ × EngineError ρ' κ → Option κ
+  | (_, .unrecoverable k) => some k
+  | (_, .recoverable _) => none
+
+/-- the tail of `send_requests` (send_requests.rs:61-72): `partition_result` of the per-request
 results (in request order), then `NoneOneOrMany::from(Vec)` on each side. -/
 def ofResults (results : List (ρ × Option (EngineError ρ' κ))) : SendRequestsOutput ρ ρ' κ :=
-  { sent := NOM.fromVec (results.filterMap fun (r, e) => match e with | none => some r | some _ => none),
-    errors := NOM.fromVec (results.filterMap fun (r, e) => match e with | none => none | some e => some (r, e)) }
+  { sent := NOM.fromVec (results.filterMap sentOf),
+    errors := NOM.fromVec (results.filterMap errorOf) }
 
 /-- `impl Default` (send_requests.rs:183-192). -/
 def default : SendRequestsOutput ρ ρ' κ := ⟨NOM.default, NOM.default⟩
@@ -410,14 +425,11 @@ def isEmpty (self : SendRequestsOutput ρ ρ' κ) : Bool := self.sent.isNone && 
 
 /-- `SendRequestsOutput::unrecoverable_errors` (send_requests.rs:171-181): `iter().filter_map().collect()`. -/
 def unrecoverableErrors (self : SendRequestsOutput ρ ρ' κ) : NOM κ :=
-  NOM.fromIter (self.errors.iter.filterMap fun (_, e) =>
-    match e with
-    | .unrecoverable k => some k
-    | _ => none)
+  NOM.fromIter (self.errors.iter.filterMap unrecOf)
 
 end SendRequestsOutput
 
-/-- `SendCancelsAndOpensOutput` (send_requests.rs:126-131). -/
+/-- `SendCancelsAndOpensOutput` (send_requests.rs:123-131). -/
 structure SendCancelsAndOpensOutput (ρc ρo ρ' κ : Type) where
   cancels : SendRequestsOutput ρc ρ' κ
   opens : SendRequestsOutput ρo ρ' κ
@@ -426,7 +438,7 @@ structure SendCancelsAndOpensOutput (ρc ρo ρ' κ : Type) where
 namespace SendCancelsAndOpensOutput
 variable {ρc ρo ρ' κ : Type}
 
-/-- `SendCancelsAndOpensOutput::is_empty` (send_requests.rs:135-137). -/
+/-- `SendCancelsAndOpensOutput::is_empty` (send_requests.rs:134-137). -/
 def isEmpty (self : SendCancelsAndOpensOutput ρc ρo ρ' κ) : Bool :=
   self.cancels.isEmpty && self.opens.isEmpty
 
@@ -449,7 +461,7 @@ structure GenerateAlgoOrdersOutput (ρc ρo ρ' κ φc φo : Type) where
 namespace GenerateAlgoOrdersOutput
 variable {ρc ρo ρ' κ φc φo : Type}
 
-/-- `GenerateAlgoOrdersOutput::is_empty` (generate_algo_orders.rs:100-104). -/
+/-- `GenerateAlgoOrdersOutput::is_empty` (generate_algo_orders.rs:99-104). -/
 def isEmpty (self : GenerateAlgoOrdersOutput ρc ρo ρ' κ φc φo) : Bool :=
   self.cancelsAndOpens.isEmpty && self.cancelsRefused.isNone && self.opensRefused.isNone
 
@@ -562,11 +574,12 @@ def Audit.terminal {ω κ : Type} (evTerminal : Bool) (a : Audit ω κ) : Bool :
 
 /-- the unrecoverable errors of a batch of send results: those of the failed requests whose error is
 unrecoverable, in request order; for cancels-and-opens: cancels first, then opens -/
+def unrecoverableOf {ρ ρ' κ : Type} : ρ × Option (EngineError ρ' κ) → Option κ
+  | (_, some (.unrecoverable k)) => some k
+  | _ => none
+
 def unrecoverable {ρ ρ' κ : Type} (results : List (ρ × Option (EngineError ρ' κ))) : List κ :=
-  results.filterMap fun (_, e) =>
-    match e with
-    | some (.unrecoverable k) => some k
-    | _ => none
+  results.filterMap unrecoverableOf
 
 end Spec
 
@@ -589,7 +602,7 @@ inductive NOp where
   /-- `map(|x| x + k)` -/
   | map (k : Int)
   /-- `for x in &mut n { *x += k }` -/
-  | mut (k : Int)
+  | mutate (k : Int)
   deriving Repr
 
 def NOp.apply (n : NOM Int) : NOp → NOM Int
@@ -601,7 +614,7 @@ def NOp.apply (n : NOM Int) : NOp → NOM Int
   | .ext l => n.extend l
   | .extN v => n.extend v.intoIter
   | .map k => n.map (· + k)
-  | .mut k => n.mutAll (· + k)
+  | .mutate k => n.mutAll (· + k)
 
 def runN (n : NOM Int) (ops : List NOp) : NOM Int := ops.foldl NOp.apply n
 
@@ -615,7 +628,7 @@ def NOp.applySpec (s : List Int) : NOp → List Int
   | .ext l => Spec.extend s l
   | .extN v => Spec.extend s v.asRef
   | .map k => Spec.map (· + k) s
-  | .mut k => Spec.map (· + k) s
+  | .mutate k => Spec.map (· + k) s
 
 def runNSpec (s : List Int) (ops : List NOp) : List Int := ops.foldl NOp.applySpec s
 
@@ -629,7 +642,7 @@ inductive OOp where
   | ext (l : List Int)
   | extO (v : OOM Int)
   | map (k : Int)
-  | mut (k : Int)
+  | mutate (k : Int)
   deriving Repr
 
 /-- `none` = the operation panicked (register unchanged by the drivers) -/
@@ -642,7 +655,7 @@ def OOp.apply (o : OOM Int) : OOp → Option (OOM Int)
   | .ext l => some (o.extend l)
   | .extO v => some (o.extend v.intoIter)
   | .map k => some (o.map (· + k))
-  | .mut k => some (o.mutAll (· + k))
+  | .mutate k => some (o.mutAll (· + k))
 
 def OOp.applySpec (s : List Int) : OOp → Option (List Int)
   | .raw v => some v.asRef
@@ -653,7 +666,7 @@ def OOp.applySpec (s : List Int) : OOp → Option (List Int)
   | .ext l => some (Spec.extend s l)
   | .extO v => some (Spec.extend s v.asRef)
   | .map k => some (Spec.map (· + k) s)
-  | .mut k => some (Spec.map (· + k) s)
+  | .mutate k => some (Spec.map (· + k) s)
 
 def runO (o : OOM Int) (ops : List OOp) : OOM Int :=
   ops.foldl (fun o op => (op.apply o).getD o) o
@@ -787,5 +800,28 @@ def engineAudit (dead : Nat → Bool) (enabled : Bool) (ev : EngEv) (algoC algoO
   let (pre, enabled') := enginePre dead enabled ev
   let g := generateAlgoOrders dead algoC algoO
   assemble pre (if enabled' then some ⟨g.isEmpty, g.unrecoverableErrors, .algo⟩ else none)
+
+/-- the exchanges of the requests whose send fails, in request order -/
+def failedSends (dead : Nat → Bool) (reqs : List Req) : List Nat :=
+  (reqs.filter fun r => dead r.1).map (·.1)
+
+/-- abstract reading of the errors of one `Engine::process` audit: the unrecoverable errors of the
+stage that failed, in request order (a command's own sends; otherwise, if generation runs, the
+approved algo cancels followed by the approved algo opens). -/
+def specEngineErrors (dead : Nat → Bool) (enabled : Bool) (ev : EngEv) (algoC algoO : List Req) : List Nat :=
+  let cmdErrs :=
+    match ev with
+    | .cmdCancel r => failedSends dead r
+    | .cmdOpen r => failedSends dead r
+    | _ => []
+  let enabled' :=
+    match ev with
+    | .tsOn => true
+    | .tsOff => false
+    | _ => enabled
+  if !cmdErrs.isEmpty then cmdErrs
+  else if enabled' && !ev.terminal then
+    failedSends dead (algoC.filter (!refused ·)) ++ failedSends dead (algoO.filter (!refused ·))
+  else []
 
 end BarterModel.Collections
